@@ -4,7 +4,7 @@ P: permissive-only code is confined to listed normalisers that only shrink a lis
 Deviation inventory: each documented deviation has a strict-gated refusal that permissive mode does not take."""
 import re
 
-from cg import VEC_MUTATORS, op_local
+from cg import VEC_MUTATORS, op_local, peel
 from core import Finding, RuleResult, atoms_match, view, wild
 from prov import Prov, guards
 from rules_api import refusals
@@ -421,5 +421,51 @@ def rawfield(pid):
                                     fpath.split("::")[-2] + "::read_from", fname, dp[:50], line, (" (listed for this field: " + "; ".join(r["why"] for r in spec["normalisations"] if r["field"] == fname) + ")") if any(r["field"] == fname for r in spec["normalisations"]) else "",
                                     "; ".join(a[:60] for a in atoms[-3:]) or "none"), f, (d[2]["span"] if d is not None and len(d) > 2 and isinstance(d[2], dict) and "span" in d[2] else st["span"])))
         res.floor("parsed field definitions", n, ctx.table("floors").get("rawfield_defs", 0))
+        return res
+    return run
+
+
+def builder(pid):
+    """R-BUILDER: a strict open is asked for with OpenOptions::strict(); every other builder step hands the option
+    set on.  No OpenOptions method that returns an OpenOptions gives back a `validation` other than the one it
+    received - except by setting Strict.  (A step that rebuilds the value from defaults silently turns a strict open
+    into a permissive one, depending on the order of the builder calls.)"""
+    def run(ctx):
+        res = RuleResult("R-BUILDER(%s)" % pid, "every OpenOptions method returning OpenOptions returns the validation mode it received, or Validation::Strict")
+        n = 0
+        for f in ctx.fx.fns.values():
+            if f.kind == "closure" or peel(f.d.get("impl_self", {})).get("adt") != "OpenOptions":
+                continue
+            if f.locals[0]["s"] != "OpenOptions" or f.arg_count < 1 or f.locals[1]["s"] != "OpenOptions":
+                continue
+            pr = Prov(f)
+            n += 1
+            vals = []
+            for bb, blk in enumerate(f.blocks):
+                if blk["cleanup"]:
+                    continue
+                for i, st in enumerate(blk["stmts"]):
+                    if st["s"] != "assign":
+                        continue
+                    pl = st["place"]
+                    # stores to the validation field of the value on its way out (the parameter or the return place)
+                    if pl["local"] in (0, 1) and pl["proj"] and pl["proj"][-1].get("p") == "field" and pl["proj"][-1].get("name") == "validation":
+                        vals.append((pr._def((bb, i, st), 0, ()), st))
+                    elif pl["local"] == 0 and not pl["proj"]:
+                        rv = st["rv"]
+                        if rv["r"] == "aggregate" and rv.get("adt") == "OpenOptions":
+                            for fld, op in zip(rv.get("fields", []), rv.get("ops", [])):
+                                if fld == "validation":
+                                    vals.append((pr.operand(op), st))
+                        elif rv["r"] == "use" and rv["op"]["k"] in ("copy", "move") and rv["op"]["place"]["local"] == 1 and not rv["op"]["place"]["proj"]:
+                            pass        # the received value, with whatever single fields were set above
+                        else:
+                            vals.append((pr._def((bb, i, st), 0, ()), st))
+            bad = [(x, st) for (x, st) in vals if not re.match(r"^(param:self\.validation|Validation::Strict(\(\))?|const:(\w+::)*Strict)$", x)]
+            if bad:
+                res.fail(Finding(res.rule, "R-BUILDER/%s/validation-not-handed-on" % f.path, "OpenOptions::%s returns a value whose validation mode is %s instead of the one it received: strict() followed by this step opens permissively, and every tolerated deviation is accepted by an open the caller asked to be strict" % (f.d["name"], bad[0][0][:80]), f, bad[0][1]["span"]))
+            else:
+                res.ok({"function": f.path, "validation_out": [x for x, _ in vals] or ["the received value, untouched"]}, nontrivial=True)
+        res.floor("OpenOptions builder steps", n, ctx.table("floors").get("builder_fns", 0))
         return res
     return run
